@@ -617,6 +617,11 @@ def _one_run(sv, verif_seed, cfg, i, nsamples):
     agg = runner.Agg()
     seed = _derive(verif_seed, cfg['name'], i)
     res = run_seeded(sv, seed, cfg['mode'], cfg['bound'], index=i, active=cfg.get('pairs'))
+    if res.get('discarded') == 'sweep-batch-beyond-end-of-operation':
+        # the pair's victim operation has fewer steps than this batch index reaches: nothing left to inject
+        agg.count('probe:sweep_batches_beyond_end')
+        agg.digests[f"{cfg['name']}:{i}"] = 'beyond-end'
+        return agg
     if res.get('discarded'):
         agg.count('discarded:' + res['discarded'])
         agg.digests[f"{cfg['name']}:{i}"] = 'discarded'
